@@ -20,6 +20,14 @@ CLAIMED = {
             "seeded random call sequences (with reopen) are recorded, and in both cases TLC validates every returned value against the spec.",
             "small-scope exhaustive for the design; sampled call sequences for the code; IAVL/goleveldb trusted; results after Cancel* are compared but not judged",
             "DESIGN.md 4.2, 6/C18"),
+    "C20": ("model_checking",
+            "TLA+ spec PrivVal.tla: exhaustive TLC (crash/reload at every point) + TLC-generated behaviours replayed on the real SFilePV + trace validation with C20 predicates on recorded signatures and state files",
+            "PrivVal.tla models the signer with persist and release as separate steps; TLC checks NoDoubleSign, Monotone, PersistBeforeRelease and "
+            "ReplayReturnsOriginal exhaustively (heights 1-2, rounds 0-1, 3 steps, 3 block ids, 2 timestamps). The real SFilePV is driven with "
+            "TLC-simulated and random request sequences incl. reloads from the files and a process death injected (hook) between persist and release; "
+            "TLC evaluates the C20 predicates on the recorded signatures, returned timestamps and decoded state-file contents.",
+            "small-scope exhaustive design; sampled request sequences for the code; atomic file replacement and secp256k1 trusted",
+            "DESIGN.md 4.7, 6/C20"),
 }
 
 NOT_YET = "check not built yet in this round (planned: see DESIGN.md section 6)"
